@@ -618,7 +618,30 @@ fn eval(rt: &tokio::runtime::Runtime, dec: Dec, param: u32, input: &[u8], verbos
         Dec::Kademlia => {
             let k = param as usize;
             let b = BytesMut::from(input);
-            let (r, peak) = measure(|| KademliaMessage::from_bytes(b, k));
+            // the decoded peers are used the way every Kademlia handler uses them before anything else happens
+            // (`TransportService::add_known_address`: append `/p2p/<peer>` to addresses that lack it): a decoder that
+            // hands out a peer id on which the library's own infallible conversion panics has not "returned a value"
+            let (r, peak) = measure(|| {
+                let m = KademliaMessage::from_bytes(b, k);
+                let use_peer = |id: PeerId, addrs: &[Multiaddr]| {
+                    for a in addrs {
+                        if !matches!(a.iter().last(), Some(multiaddr::Protocol::P2p(_))) {
+                            let _ = a.clone().with(multiaddr::Protocol::P2p(id.into()));
+                        }
+                    }
+                    let _ = multiaddr::PeerId::from(id);
+                };
+                match &m {
+                    Some(KademliaMessage::FindNode { peers, .. }) | Some(KademliaMessage::GetRecord { peers, .. }) =>
+                        peers.iter().for_each(|p| use_peer(kad::peer_id(p), &p.addresses())),
+                    Some(KademliaMessage::AddProvider { providers, .. }) =>
+                        providers.iter().for_each(|p| use_peer(kad::peer_id(p), &p.addresses())),
+                    Some(KademliaMessage::GetProviders { peers, providers, .. }) =>
+                        peers.iter().chain(providers.iter()).for_each(|p| use_peer(kad::peer_id(p), &p.addresses())),
+                    _ => {}
+                }
+                m
+            });
             done!(r, peak, |v| {
                 match &v {
                     Some(m) => {
@@ -673,7 +696,14 @@ fn eval(rt: &tokio::runtime::Runtime, dec: Dec, param: u32, input: &[u8], verbos
             });
         }
         Dec::PeerIdBytes => {
-            let (r, peak) = measure(|| PeerId::from_bytes(input));
+            let (r, peak) = measure(|| {
+                let r = PeerId::from_bytes(input);
+                if let Ok(id) = &r {
+                    // the library's own infallible conversion of an accepted id (used whenever an address is completed)
+                    let _ = multiaddr::PeerId::from(*id);
+                }
+                r
+            });
             done!(r, peak, |v| {
                 if v.is_ok() {
                     out.accepted = true;
@@ -1026,6 +1056,8 @@ enum KExp {
     GetProviders { key: Option<Vec<u8>>, peers: Vec<PeerSpec>, providers: Vec<PeerSpec> },
     /// the receiver deliberately refuses the message (documented exception, recorded in evidence)
     Refused(&'static str),
+    /// hand-assembled bytes with no expected value: only "returns, does not panic, stays within the limit"
+    Any,
 }
 
 fn key_of(len: usize) -> Vec<u8> {
@@ -1219,7 +1251,29 @@ fn corpus_kademlia() -> Vec<(Item, KExp)> {
             KExp::GetProviders { key: None, peers: closer, providers: provs },
         );
     }
+    // hand-assembled FIND_NODE responses whose single peer carries a raw multihash of every boundary shape (identity
+    // and sha2-256 codes, digest lengths around 0, 32, 42 = largest inline key, and 64 = container size) together with
+    // an address that lacks the /p2p suffix, so that whatever id the parser lets through is also *used*
+    for code in [0x00u8, 0x12] {
+        for dlen in peer_id_digest_lengths() {
+            let mut id = vec![code, dlen as u8];
+            id.extend(std::iter::repeat(0x5a).take(dlen));
+            let mut peer = pb_bytes(1, &id);
+            let addr: Multiaddr = "/ip4/10.0.0.7/tcp/30333".parse().expect("valid multiaddr");
+            peer.extend(pb_bytes(2, &addr.to_vec()));
+            peer.extend(pb_varint(3, 1));
+            let mut msg = pb_varint(1, 4);
+            msg.extend(pb_bytes(2, &key_of(32)));
+            msg.extend(pb_bytes(8, &peer));
+            out.push((item_pb(&format!("find_node_response-rawid/code{code:02x}-digest{dlen}"), msg, &kad_nested, true), KExp::Any));
+        }
+    }
     out
+}
+
+/// digest lengths around every boundary of the peer-id parser
+fn peer_id_digest_lengths() -> Vec<usize> {
+    vec![0, 1, 31, 32, 33, 41, 42, 43, 44, 63, 64, 65]
 }
 
 // ---- keys, peer ids, noise ----
@@ -1254,12 +1308,28 @@ fn corpus_peer_id() -> Vec<Item> {
         anc: BTreeMap::new(),
         handmade: false,
     };
-    vec![
+    let v = vec![
         mk("identity/ed25519", util::peer(1)),
         mk("sha256/50-byte-key", PeerId::from_public_key_protobuf(&[7u8; 50])),
         mk("identity/empty", PeerId::from_public_key_protobuf(&[])),
         mk("identity/42-bytes", PeerId::from_public_key_protobuf(&[9u8; 42])),
-    ]
+    ];
+    let mut v = v;
+    for code in [0x00u8, 0x12] {
+        for dlen in peer_id_digest_lengths() {
+            let mut bytes = vec![code, dlen as u8];
+            bytes.extend(std::iter::repeat(0x5a).take(dlen));
+            v.push(Item {
+                kind: format!("raw/code{code:02x}-digest{dlen}"),
+                bytes,
+                lenpos: vec![(1, 1)],
+                varpos: vec![(0, 1)],
+                anc: BTreeMap::new(),
+                handmade: true,
+            });
+        }
+    }
+    v
 }
 
 fn noise_nested(path: &[u32]) -> bool {
@@ -1472,6 +1542,7 @@ fn same_record(got: &Record, want: &RecSpec) -> Result<(), String> {
 fn kad_matches(got: &Option<KademliaMessage>, want: &KExp) -> Result<(), String> {
     let key_eq = |g: &Option<RecordKey>, w: &Option<Vec<u8>>| g.as_ref().map(|k| k.to_vec()) == *w;
     match (got, want) {
+        (_, KExp::Any) => Ok(()),
         (None, KExp::Refused(_)) => Ok(()),
         (Some(m), KExp::Refused(why)) => Err(format!("expected refusal ({why}), decoded {m:?}")),
         (None, _) => Err("decoder returned None".into()),
@@ -1651,7 +1722,7 @@ fn roundtrips(runs: &[HonestRun], kadc: &[(Item, KExp)], only: Option<(&str, &st
         }
     }
     for item in corpus_peer_id() {
-        if !want(Dec::PeerIdBytes, &item.kind) {
+        if item.handmade || !want(Dec::PeerIdBytes, &item.kind) {
             continue;
         }
         rt.checked += 1;
